@@ -104,6 +104,9 @@ static int do_verify1(EVP_PKEY *k, const struct alginfo *a, const unsigned char 
 	EVP_MD_CTX *c = EVP_MD_CTX_new();
 	EVP_PKEY_CTX *pc = NULL;
 	if (!family_ok(k, a)) goto out;
+	/* RFC 8017 8.1.2 / 8.2.2: an RSA signature is an octet string of exactly the length of the modulus (EVP_DigestVerify itself
+	 * takes a shorter one as the same integer for RSASSA-PSS); "valid" here means valid as the standard defines the signature */
+	if ((a->kind == 0 || a->kind == 1) && sl != (size_t)EVP_PKEY_get_size(k)) goto out;
 	if (a->kind == 2) {
 		size_t n = ((size_t)EVP_PKEY_bits(k) + 7) / 8;
 		if (sl != 2 * n) goto out;
